@@ -225,6 +225,7 @@ class FactoredInference:
             alpha = 1.0 / self.model.total**2
             stepsize = lambda t: 2.0*alpha
 
+        stalled = 0
         for t in range(1, self.iters + 1):
             if callback is not None:
                 callback(mu)
@@ -242,6 +243,9 @@ class FactoredInference:
                 if nols or curr_loss - ans[0] >= 0.5*alpha*dL.dot(nu-mu):
                     break
                 alpha *= 0.5
+            # converged: the loss has stopped changing; further (ever larger) steps only inflate the parameters
+            stalled = stalled + 1 if abs(curr_loss - ans[0]) <= 1e-15*abs(curr_loss) else 0
+            if stalled >= 20: break
 
         model.potentials = theta
         model.marginals = mu
